@@ -128,6 +128,8 @@ class Net2d(nn.Module):
                 self.blocks[f's{i}'] = MaxP(2) if st.get('kind', 'max') == 'max' else AvgP(2)
             elif op == 'relu':        # a stand-alone activation (e.g. conv -> BN -> pool -> ReLU orderings)
                 self.blocks[f's{i}'] = nn.ReLU()
+            elif op == 'dropout':
+                self.blocks[f's{i}'] = nn.Dropout(0.3)
             elif op == 'twice':       # one conv (c -> c) invoked at two call sites, optionally at two resolutions
                 self.blocks[f's{i}'] = Conv(c, c, st.get('k', 3), padding=st.get('k', 3) // 2)
                 if st.get('pool'):
@@ -186,7 +188,7 @@ class Net2d(nn.Module):
                 x = torch.relu(self.blocks[f's{i}a'](x) + self.blocks[f's{i}b'](x))
             elif op == 'skipadd':
                 x = torch.relu(x + self.blocks[f's{i}a'](x))
-            elif op in ('pool', 'relu'):
+            elif op in ('pool', 'relu', 'dropout'):
                 x = self.blocks[f's{i}'](x)
             elif op == 'twice':
                 x = torch.relu(self.blocks[f's{i}'](x))
